@@ -249,7 +249,7 @@ func execC10(spec *RunSpec) *Result {
 		}
 		o := outs[i]
 		h = hashBytes([]byte(fmt.Sprint(h)), o.Out, []byte(o.Err), []byte(o.Panic))
-		if o.Panic != "" || o.Overrun {
+		if o.Panic != "" || o.Overrun || o.Deadlock {
 			res.addStat("c11_class_events", 1)
 			noteCrash(res, spec, i, op, o)
 		}
